@@ -83,6 +83,9 @@ func (l *Loops) LoopErr() error {
 	return l.syncErr
 }
 
+// Cancel requests the loops to stop without waiting for them.
+func (l *Loops) Cancel() { l.cancel() }
+
 // Stop cancels and joins the loops. It returns ErrWatchdog if they do not return in time.
 func (l *Loops) Stop() error {
 	l.cancel()
